@@ -64,6 +64,7 @@ Deviations from DESIGN.md (soundness / cost):
     KeyError out of Network.notify (NMT_STATES[self._state] in a log call).
 """
 import threading
+import time
 
 from hypothesis import strategies as st
 
@@ -235,7 +236,7 @@ def _run_wait(rig, op):
         expect_return = bool(a_bytes)
     else:
         expect_return = any(b & 0x7F == 0 for b in a_bytes)
-    timeout = 5.0 if expect_return else 0.03
+    timeout = 6.0 if expect_return else 0.03
     stop = threading.Event()
 
     def feeder():
@@ -251,6 +252,7 @@ def _run_wait(rig, op):
     ret, exc = None, None
     if th:
         th.start()
+    t_call = time.monotonic()
     try:
         if op["what"] == "hb":
             ret = nmt.wait_for_heartbeat(timeout)
@@ -259,10 +261,11 @@ def _run_wait(rig, op):
     except Exception as e:  # judged below
         exc = e
     finally:
+        elapsed = time.monotonic() - t_call
         stop.set()
         if th:
             th.join()
-    return expect_return, a_bytes, ret, exc
+    return expect_return, a_bytes, ret, exc, elapsed
 
 
 def step(rig, model, op, D, tag, before):
@@ -374,14 +377,20 @@ def step(rig, model, op, D, tag, before):
                     return
             exp["r" + T] = {decode_hb(code)}
     elif kind == "wait":
-        expect_return, a_bytes, ret, wexc = _run_wait(rig, op)
+        expect_return, a_bytes, ret, wexc, elapsed = _run_wait(rig, op)
         what = op["what"]
         if wexc is not None and not isinstance(wexc, rig.NmtError):
             bad(f"wait-{what}/raises", f"{type(wexc).__name__}: {wexc}")
             return
         if expect_return and wexc is not None:
             bad(f"wait-{what}/missed-message", f"NmtError({wexc}) although matching frames "
-                                               f"{[hex(b) for b in a_bytes]} were repeated every 2 ms for 5 s")
+                                               f"{[hex(b) for b in a_bytes]} were repeated every 2 ms for 6 s")
+            return
+        if expect_return and elapsed > 3.0:
+            # "returns on the matching message": the frame is repeated every 2 ms, the caller's
+            # own time-out is 6 s - coming back only when that runs out is not returning on the message
+            bad(f"wait-{what}/late", f"matching frames {[hex(b) for b in a_bytes]} were repeated every 2 ms but the "
+                                     f"call only returned after {elapsed:.1f} s (its time-out was 6 s)")
             return
         if not expect_return and wexc is None:
             bad(f"wait-{what}/no-error", f"returned {ret!r} although no matching message arrived "
